@@ -601,7 +601,23 @@ func notifierInv(n *downlinkDataNotifier) bool {
 // NewPFCPConn, never broken afterwards).
 func connInv(pConn *PFCPConn) bool {
 	return pConn != nil && pConn.upf != nil && pConn.Conn != nil && pConn.store != nil && typeIs[*InMemoryStore](pConn.store) && dynRef(pConn.store) != 0 &&
-		pConn.nodeID.localIE != nil && !held(&pConn.seqNum.mux)
+		pConn.nodeID.localIE != nil && pConn.nodeID.localIE.Type == ie.NodeID && !held(&pConn.seqNum.mux) && pConn.upf.datapath != nil
+}
+
+// msgWF: a message as message.Parse delivers it: a non-nil pointer to a message struct whose
+// embedded header is present.
+func msgWF(msg message.Message) bool {
+	return msg != nil && dynRef(msg) != 0 &&
+		implies(typeIs[*message.HeartbeatRequest](msg), ptrAt[message.HeartbeatRequest](dynRef(msg)).Header != nil) &&
+		implies(typeIs[*message.HeartbeatResponse](msg), ptrAt[message.HeartbeatResponse](dynRef(msg)).Header != nil) &&
+		implies(typeIs[*message.PFDManagementRequest](msg), ptrAt[message.PFDManagementRequest](dynRef(msg)).Header != nil) &&
+		implies(typeIs[*message.AssociationSetupRequest](msg), ptrAt[message.AssociationSetupRequest](dynRef(msg)).Header != nil) &&
+		implies(typeIs[*message.AssociationSetupResponse](msg), ptrAt[message.AssociationSetupResponse](dynRef(msg)).Header != nil) &&
+		implies(typeIs[*message.AssociationReleaseRequest](msg), ptrAt[message.AssociationReleaseRequest](dynRef(msg)).Header != nil) &&
+		implies(typeIs[*message.SessionEstablishmentRequest](msg), ptrAt[message.SessionEstablishmentRequest](dynRef(msg)).Header != nil) &&
+		implies(typeIs[*message.SessionModificationRequest](msg), ptrAt[message.SessionModificationRequest](dynRef(msg)).Header != nil) &&
+		implies(typeIs[*message.SessionDeletionRequest](msg), ptrAt[message.SessionDeletionRequest](dynRef(msg)).Header != nil) &&
+		implies(typeIs[*message.SessionReportResponse](msg), ptrAt[message.SessionReportResponse](dynRef(msg)).Header != nil)
 }
 
 func specStore(pConn *PFCPConn) *InMemoryStore { return pConn.store.(*InMemoryStore) }
@@ -751,3 +767,75 @@ func specFirstFar(s *PFCPSession, j int, id uint32) bool {
 //@   loop 1 invariant C12.tx.l.same: forall e int :: old[int](glen("pfcpout")) <= e && e < glen("pfcpout") ==> gfield("pfcpout.msg", gentry("pfcpout", e)) == uint64(dynRef(r.msg))
 //@   loop 1 invariant C12.tx.l.spacing: forall e int :: old[int](glen("wait")) <= e && e < glen("wait") ==> gfield("wait.dur", gentry("wait", e)) == uint64(pConn.upf.respTimeout)
 //@   loop 1 invariant C12.tx.l.pending: smHas(&pConn.pendingReqs, specMsgSeq(r.msg)) && smIs(&pConn.pendingReqs, specMsgSeq(r.msg), r) && smGet(&pConn.pendingReqs, specMsgSeq(r.msg), r) == r
+
+// specPending: the request waiting for a response with sequence number seq.
+func specHasPending(pConn *PFCPConn, seq uint32) bool {
+	return smHas(&pConn.pendingReqs, seq)
+}
+
+func specPending(pConn *PFCPConn, seq uint32) *Request {
+	return smGet(&pConn.pendingReqs, seq, (*Request)(nil))
+}
+
+// pendingInv: everything in the pending-request table is a non-nil *Request.
+func pendingInv(pConn *PFCPConn) bool {
+	return forall(func(k uint32) bool {
+		return implies(smHas(&pConn.pendingReqs, k), smIs(&pConn.pendingReqs, k, (*Request)(nil)) && specPending(pConn, k) != nil)
+	})
+}
+
+//@ func (pConn *PFCPConn) handleIncomingResponse(msg message.Message)
+//@   requires connInv(pConn) && pendingInv(pConn) && msg != nil
+//@   ensures C12.resp.inv: pendingInv(pConn)
+//@   ensures C12.resp.match: old[bool](specHasPending(pConn, specMsgSeq(msg))) ==> glen("send") == old[int](glen("send"))+1 && gfield("send.chan", gentry("send", old[int](glen("send")))) == uint64(chanRef(old[*Request](specPending(pConn, specMsgSeq(msg))).reply)) && !specHasPending(pConn, specMsgSeq(msg))
+//@   ensures C12.resp.nomatch: !old[bool](specHasPending(pConn, specMsgSeq(msg))) ==> glen("send") == old[int](glen("send"))
+//@   ensures C12.resp.others: forall k uint32 :: k != specMsgSeq(msg) ==> (specHasPending(pConn, k) <==> old[bool](specHasPending(pConn, k)))
+//@   ensures C12.resp.noreply: glen("pfcpout") == old[int](glen("pfcpout"))
+
+func specHBResp(m message.Message) *message.HeartbeatResponse {
+	return ptrAt[message.HeartbeatResponse](dynRef(m))
+}
+
+//@ func (pConn *PFCPConn) handleHeartbeatRequest(msg message.Message) (reply message.Message, err error)
+//@   requires connInv(pConn) && msgWF(msg)
+//@   ensures C12.hb.type: !typeIs[*message.HeartbeatRequest](msg) ==> reply == nil && err != nil
+//@   ensures C12.hb.reply: typeIs[*message.HeartbeatRequest](msg) ==> err == nil && reply != nil && typeIs[*message.HeartbeatResponse](reply) && specHBResp(reply).Header.SequenceNumber == ptrAt[message.HeartbeatRequest](dynRef(msg)).Header.SequenceNumber && specHBResp(reply).RecoveryTimeStamp != nil && specIETime(specHBResp(reply).RecoveryTimeStamp) == timeNanos(pConn.ts.local)
+//@   ensures C12.hb.stable: timeNanos(pConn.ts.local) == old[int64](timeNanos(pConn.ts.local))
+//@   ensures C12.hb.reset: typeIs[*message.HeartbeatRequest](msg) && !pConn.upf.enableHBTimer ==> glen("send") == old[int](glen("send"))
+//@   ensures C12.hb.resetch: forall e int :: old[int](glen("send")) <= e && e < glen("send") ==> gfield("send.chan", gentry("send", e)) == uint64(chanRef(pConn.hbReset))
+//@   ensures C12.hb.nosend: glen("pfcpout") == old[int](glen("pfcpout"))
+
+//@ func (pConn *PFCPConn) associationIEs() (ies []*ie.IE)
+//@   requires connInv(pConn)
+//@   ensures C12.feat.shape: len(ies) == 4 && (forall a int :: lo(ies) <= a && a < hi(ies) ==> at(ies, a) != nil) && at(ies, lo(ies)+1) == pConn.nodeID.localIE
+//@   ensures C12.feat.types: at(ies, lo(ies)).Type == ie.RecoveryTimeStamp && at(ies, lo(ies)+1).Type == ie.NodeID && at(ies, lo(ies)+2).Type == ie.UserPlaneIPResourceInformation && at(ies, lo(ies)+3).Type == ie.UPFunctionFeatures && !allocated(ies)
+//@   ensures C12.feat.ts: specIETime(at(ies, lo(ies))) == timeNanos(pConn.ts.local)
+//@   ensures C12.feat.ftup: specIEFeat(at(ies, lo(ies)+3), 0)&0x10 != 0
+//@   ensures C12.feat.ueip: (specIEFeat(at(ies, lo(ies)+3), 2)&0x04 != 0) <==> pConn.upf.enableUeIPAlloc
+//@   ensures C12.feat.endmarker: (specIEFeat(at(ies, lo(ies)+3), 1)&0x01 != 0) <==> pConn.upf.enableEndMarker
+
+// Ghost log "isconn": one entry per datapath connectivity check (field isconn.r: 1 iff connected).
+//@ func (d datapath) IsConnected(accessIP *net.IP) (r bool)
+//@   appends isconn
+//@   ensures (gfield("isconn.r", gentry("isconn", glen("isconn")-1)) == 1) <==> r
+
+func specASReq(m message.Message) *message.AssociationSetupRequest {
+	return ptrAt[message.AssociationSetupRequest](dynRef(m))
+}
+
+func specASResp(m message.Message) *message.AssociationSetupResponse {
+	return ptrAt[message.AssociationSetupResponse](dynRef(m))
+}
+
+//@ func (pConn *PFCPConn) handleAssociationSetupRequest(msg message.Message) (reply message.Message, err error)
+//@   requires connInv(pConn) && msgWF(msg)
+//@   requires typeIs[*message.AssociationSetupRequest](msg) ==> specASReq(msg).NodeID != nil && specASReq(msg).RecoveryTimeStamp != nil
+//@   ensures C12.as.type: !typeIs[*message.AssociationSetupRequest](msg) ==> reply == nil && err != nil
+//@   ensures C12.as.resp: reply != nil ==> typeIs[*message.AssociationSetupResponse](reply) && dynRef(reply) != 0 && specASResp(reply).Header != nil && specASResp(reply).Header.SequenceNumber == specASReq(msg).Header.SequenceNumber && specASResp(reply).Cause != nil
+//@   ensures C12.as.gate: reply != nil ==> glen("isconn") == old[int](glen("isconn"))+1 && ((specIEu8(specASResp(reply).Cause) == ie.CauseRequestAccepted) <==> gfield("isconn.r", gentry("isconn", old[int](glen("isconn")))) == 1) && (gfield("isconn.r", gentry("isconn", old[int](glen("isconn")))) != 1 ==> specIEu8(specASResp(reply).Cause) == ie.CauseRequestRejected && err != nil)
+//@   ensures C12.as.features: reply != nil ==> specASResp(reply).UPFunctionFeatures != nil && specIEFeat(specASResp(reply).UPFunctionFeatures, 0)&0x10 != 0 && ((specIEFeat(specASResp(reply).UPFunctionFeatures, 2)&0x04 != 0) <==> pConn.upf.enableUeIPAlloc) && ((specIEFeat(specASResp(reply).UPFunctionFeatures, 1)&0x01 != 0) <==> pConn.upf.enableEndMarker)
+//@   ensures C12.as.nodeid: reply != nil ==> specASResp(reply).NodeID == pConn.nodeID.localIE
+//@   ensures C12.as.nosend: glen("pfcpout") == old[int](glen("pfcpout"))
+
+// The local recovery time stamp is fixed when the association object is created.
+//@ immutable PFCPConn.ts.local writers (*PFCPNode).NewPFCPConn
